@@ -51,17 +51,35 @@ func (m *Mutex) TryLock() bool {
 	return ok
 }
 
-// RWMutex mirrors sync.RWMutex. state: 0 free, 1<<32 writer, n readers.
+// RWMutex mirrors sync.RWMutex including its writer preference: a writer that is waiting blocks every
+// new reader (which is what makes a recursive read lock a deadlock). state: bits 0-15 active readers,
+// bits 16-31 writers that have announced themselves and wait, bit 32 writer holds the lock.
 type RWMutex struct {
 	h vrt.Handle
 }
 
-const writer = uint64(1) << 32
+const (
+	writer      = uint64(1) << 32
+	pendingUnit = uint64(1) << 16
+	readerMask  = pendingUnit - 1
+	pendingMask = (writer - 1) &^ readerMask
+)
 
 func (m *RWMutex) Lock() {
-	vrt.Acquire(&m.h, "RWMutex.Lock", func(v uint64) (uint64, bool) {
+	acquired := false
+	vrt.Update(&m.h, "RWMutex.Lock", func(v uint64) uint64 {
 		if v == 0 {
-			return writer, true
+			acquired = true
+			return writer
+		}
+		return v + pendingUnit // announce: from now on new readers wait
+	})
+	if acquired {
+		return
+	}
+	vrt.Acquire(&m.h, "RWMutex.Lock(wait)", func(v uint64) (uint64, bool) {
+		if v&writer == 0 && v&readerMask == 0 {
+			return (v - pendingUnit) | writer, true
 		}
 		return v, false
 	})
@@ -69,16 +87,16 @@ func (m *RWMutex) Lock() {
 
 func (m *RWMutex) Unlock() {
 	vrt.Update(&m.h, "RWMutex.Unlock", func(v uint64) uint64 {
-		if v != writer {
+		if v&writer == 0 {
 			panic("sync: Unlock of unlocked RWMutex")
 		}
-		return 0
+		return v &^ writer
 	})
 }
 
 func (m *RWMutex) RLock() {
 	vrt.Acquire(&m.h, "RWMutex.RLock", func(v uint64) (uint64, bool) {
-		if v < writer {
+		if v&writer == 0 && v&pendingMask == 0 {
 			return v + 1, true
 		}
 		return v, false
@@ -87,7 +105,7 @@ func (m *RWMutex) RLock() {
 
 func (m *RWMutex) RUnlock() {
 	vrt.Update(&m.h, "RWMutex.RUnlock", func(v uint64) uint64 {
-		if v == 0 || v >= writer {
+		if v&readerMask == 0 {
 			panic("sync: RUnlock of unlocked RWMutex")
 		}
 		return v - 1
